@@ -106,7 +106,8 @@ def showW : W → String
   | .either r e a => s!"(either {r} {showV e} {showV a})"
 
 def parseParam : Sexp → Option Param
-  | .list [.atom n, .atom b] => do some ⟨← n.toNat?, b == "1", false⟩
+  | .list [.atom n, .atom b] => do some ⟨← n.toNat?, b == "1", false, true⟩
+  | .list [.atom n, .atom b, .atom pl] => do some ⟨← n.toNat?, b == "1", false, pl == "1"⟩
   | _ => none
 
 def handleSexp : Sexp → Option String
